@@ -10,7 +10,7 @@
 //! queue empty) the alternatives are exactly the enabled events (cost 0).
 use std::cell::{Cell, RefCell};
 use std::collections::hash_map::DefaultHasher;
-use std::collections::{BTreeMap, HashSet};
+use std::collections::{BTreeMap, HashMap, HashSet};
 use std::fmt::Debug;
 use std::future::Future;
 use std::hash::{Hash, Hasher};
@@ -168,8 +168,80 @@ thread_local! { static SPIN_PRINTED: std::cell::Cell<u32> = const { std::cell::C
 /// task polls without quiescence and without observable activity after which a busy loop is assumed
 const SPIN_LIMIT: u64 = 400;
 
+/// Heartbeat of one execution thread: a task poll that never returns (an endless loop inside the library)
+/// cannot be interrupted from inside; the watchdog thread notices that the beat stopped and ends the run
+/// as a reported verdict instead of hanging for ever.
+pub struct Heart {
+    pub tick: AtomicU64,
+    pub busy: AtomicBool,
+    pub exec: Mutex<Option<(Arc<Mutex<ExecRecord>>, String, bool)>>,
+}
+
+static HEARTS: Mutex<Vec<Arc<Heart>>> = Mutex::new(Vec::new());
+/// Called by the watchdog with (execution record so far, configuration, livelock-is-violation); must not return.
+pub static HANG_HANDLER: Mutex<Option<Box<dyn Fn(&ExecRecord, &str, bool) + Send>>> = Mutex::new(None);
+/// executions completed in this process (for the evidence of an aborted run)
+pub static EXECS_DONE: AtomicU64 = AtomicU64::new(0);
+
+/// registration of the current thread's heart; removed again when the thread ends
+struct HeartReg(Arc<Heart>);
+impl Drop for HeartReg {
+    fn drop(&mut self) {
+        if let Ok(mut v) = HEARTS.lock() {
+            v.retain(|h| !Arc::ptr_eq(h, &self.0));
+        }
+    }
+}
+impl std::ops::Deref for HeartReg {
+    type Target = Heart;
+    fn deref(&self) -> &Heart {
+        &self.0
+    }
+}
+
+thread_local! {
+    static HEART: HeartReg = {
+        let h = Arc::new(Heart { tick: AtomicU64::new(0), busy: AtomicBool::new(false), exec: Mutex::new(None) });
+        HEARTS.lock().unwrap().push(h.clone());
+        HeartReg(h)
+    };
+}
+
+fn hang_secs() -> u64 {
+    std::env::var("VERIF_HANG_SECS").ok().and_then(|s| s.parse().ok()).unwrap_or(30)
+}
+
+fn watchdog() {
+    let mut last: HashMap<usize, (u64, Instant)> = HashMap::new();
+    loop {
+        std::thread::sleep(std::time::Duration::from_millis(500));
+        let hearts: Vec<Arc<Heart>> = HEARTS.lock().unwrap().clone();
+        last.retain(|k, _| hearts.iter().any(|h| Arc::as_ptr(h) as usize == *k));
+        for h in hearts.iter() {
+            let t = h.tick.load(Ordering::Relaxed);
+            let e = last.entry(Arc::as_ptr(h) as usize).or_insert((t, Instant::now()));
+            if !h.busy.load(Ordering::Relaxed) || t != e.0 {
+                *e = (t, Instant::now());
+                continue;
+            }
+            if e.1.elapsed().as_secs() >= hang_secs() {
+                let info = h.exec.lock().unwrap().clone();
+                if let Some((rec, cfg, is_viol)) = info {
+                    let r = rec.lock().map(|r| r.clone()).unwrap_or_default();
+                    if let Some(f) = HANG_HANDLER.lock().unwrap().as_ref() {
+                        f(&r, &cfg, is_viol);
+                    }
+                    eprintln!("MACHINERY ERROR: an execution stopped making progress for {} s (a task poll does not return); cfg {cfg}; events so far {:?}", hang_secs(), r.labels);
+                    std::process::exit(2);
+                }
+            }
+        }
+    }
+}
+
 fn global_init() {
     INIT.call_once(|| {
+        let _ = std::thread::Builder::new().name("watchdog".into()).spawn(watchdog);
         unsafe {
             ntex_rt::task_callbacks(
                 || {
@@ -187,6 +259,7 @@ fn global_init() {
                 },
                 |p| {
                     POLLS.with(|c| c.set(c.get() + 1));
+                    HEART.with(|h| h.tick.fetch_add(1, Ordering::Relaxed));
                     // VERIF_SPINDBG (with VERIF_LEAKDBG): say which task is polled once an execution is far too long
                     if STEP.with(|s| s.get()) > 400 && std::env::var("VERIF_SPINDBG").is_ok() {
                         let n = SPIN_PRINTED.with(|c| {
@@ -570,6 +643,11 @@ impl<S: Scenario> Driver for Drv<S> {
 fn exec_here<S: Scenario>(cfg: &S::Cfg, choices: &[u16], script: Option<Vec<String>>, max_polls: u64, rec: &Arc<Mutex<ExecRecord>>) -> bool {
     IN_EXEC.with(|c| c.set(true));
     REC.with(|r| *r.borrow_mut() = Some(rec.clone()));
+    HEART.with(|h| {
+        *h.exec.lock().unwrap() = Some((rec.clone(), format!("{cfg:?}"), S::livelock_is_violation()));
+        h.tick.fetch_add(1, Ordering::Relaxed);
+        h.busy.store(true, Ordering::Relaxed);
+    });
     POLLS.with(|p| p.set(0));
     STEP.with(|p| p.set(0));
     let cfg2 = cfg.clone();
@@ -623,6 +701,11 @@ fn exec_here<S: Scenario>(cfg: &S::Cfg, choices: &[u16], script: Option<Vec<Stri
     });
     REC.with(|r| *r.borrow_mut() = None);
     IN_EXEC.with(|c| c.set(false));
+    HEART.with(|h| {
+        h.busy.store(false, Ordering::Relaxed);
+        *h.exec.lock().unwrap() = None;
+    });
+    EXECS_DONE.fetch_add(1, Ordering::Relaxed);
     r.is_err() || cleanup.is_err()
 }
 
